@@ -10,6 +10,7 @@
    Executable definitions only. *)
 From Coq Require Import ZArith QArith List Bool String.
 From PPV Require Import Base.QN Base.Out.
+From PPV Require C32.Model.
 Import ListNotations.
 Open Scope Q_scope.
 
@@ -47,6 +48,12 @@ Definition qv4120_flex (v : qv4120) (vm : Q) : Q * Q :=
             then (v_min_q v, qadd (v_min_q v) (qmul (lf v) (qsub (max_vm v) vm))) else r3 in
   r4.
 
+(* QVArea4130 (PQVAreas.py:333-381, VDE AR-N-4130 variants 1-3, 380 kV / 220 kV): both q limits are piecewise-linear functions
+   of the voltage, q_flexibility = (np.interp(vm, min_vm_points_pu, min_q_points_pu), np.interp(vm, max_vm_points_pu, max_q_points_pu)).
+   np.interp is C32.Model.interp (numpy raises on empty point arrays; the constructor never builds one) *)
+Definition interp1 (x : Q) (l : list C32.Model.pt) : Q := match C32.Model.interp x l with Some v => v | None => 0 end.
+Definition qv4130_flex (lo_pts hi_pts : list C32.Model.pt) (vm : Q) : Q * Q := (interp1 vm lo_pts, interp1 vm hi_pts).
+
 Definition within (iv : Q * Q) (q : Q) : bool := qleb (fst iv) q && qleb q (snd iv).
 
 (* BasePQVArea.q_flexibility (:48-79): None = ValueError *)
@@ -64,7 +71,8 @@ Inductive area :=
 | ANone
 | A4120 (a : pq4120) (v : qv4120) (raise_overlap : bool)      (* PQVArea4120V1/V2/V3 *)
 | AStatcom (lo hi : Q)                                        (* PQAreaSTATCOM *)
-| AOracle (inside : bool) (lo hi : Q).                        (* polygon areas: shapely results for this point *)
+| AOracle (inside : bool) (lo hi : Q)                         (* polygon areas: shapely results for this point *)
+| A4130 (a : pq4120) (lo_pts hi_pts : list C32.Model.pt) (raise_overlap : bool).   (* PQVArea4130V1/V2/V3: PQArea4130 + QVArea4130 *)
 
 Definition area_in (ar : area) (p q vm : Q) : bool :=
   match ar with
@@ -72,6 +80,7 @@ Definition area_in (ar : area) (p q vm : Q) : bool :=
   | A4120 a v _ => pq4120_in a p q && within (qv4120_flex v vm) q
   | AStatcom lo hi => qleb lo q && qleb q hi
   | AOracle b _ _ => b
+  | A4130 a lo_pts hi_pts _ => pq4120_in a p q && within (qv4130_flex lo_pts hi_pts vm) q   (* BaseArea.in_area on the QV part *)
   end.
 Definition area_flex (ar : area) (p vm : Q) : option (Q * Q) :=
   match ar with
@@ -79,6 +88,7 @@ Definition area_flex (ar : area) (p vm : Q) : option (Q * Q) :=
   | A4120 a v r => merge r (pq4120_flex a p) (qv4120_flex v vm)
   | AStatcom lo hi => Some (lo, hi)
   | AOracle _ lo hi => Some (lo, hi)
+  | A4130 a lo_pts hi_pts r => merge r (pq4120_flex a p) (qv4130_flex lo_pts hi_pts vm)
   end.
 
 (* ---------------------------------------------------------------- _saturate *)
